@@ -113,13 +113,14 @@ class EquationParser(object):
                 continue  # pragma: no cover   -- Seems to be a bug in the coverage report on this line...
             if varname in ('t', 't_minus_1'):
                 found_t = True
+            if '(0)' in varname:
+                # An initial condition: like the run parameters, it may be written anywhere in the block
+                # (after the 'exogenous' marker it used to become an exogenous variable named 'x(0)').
+                # ('x (0) = 1.' is accepted as well as 'x(0) = 1.')
+                varname = varname.replace('(0)', '').strip()
+                self.InitialConditions[varname] = eqn
+                continue
             if mode == 'endogenous':
-                # Remove initial conditions equations
-                if '(0)' in varname:
-                    # ('x (0) = 1.' is accepted as well as 'x(0) = 1.')
-                    varname = varname.replace('(0)', '').strip()
-                    self.InitialConditions[varname] = eqn
-                    continue
                 eqn = eqn.replace('(t-1)', '(k-1)')
                 eqn = eqn.replace(' (k -1 )', '(k-1)')
                 pos = eqn.find('(k-1)')
